@@ -554,6 +554,10 @@ class Mineral:
         See also: `numpy.savez`, `Mineral.load`, `Mineral.from_file`.
 
         """
+        if not str(filename).endswith(".npz"):
+            raise ValueError(
+                f"Must only save to numpy NPZ format. Cannot save to {filename}."
+            )
         if len(self.fractions) != len(self.orientations):
             raise ValueError(
                 "Length of stored results must match."
